@@ -3,6 +3,7 @@ package main
 // Calls (by contract, inlined, intrinsic), loops, and the per-function driver.
 
 import (
+	"context"
 	"fmt"
 	"go/ast"
 	"go/parser"
@@ -182,15 +183,41 @@ func worldOf(h map[string]*Term) *Term {
 }
 
 // detArgs flattens receiver and arguments to scalar terms (slices by header, interfaces by tag and payload).
-func detArgs(sig *types.Signature, all []Value) []*Term {
+func detArgs(sig *types.Signature, all []Value) []*Term { return detArgsFor(nil, sig, all) }
+
+// detArgsFor restricts the arguments to those named in the contract's detargs clause (if any).
+func detArgsFor(c *Contract, sig *types.Signature, all []Value) []*Term {
+	want := func(name string, isRecv bool) bool {
+		if c == nil || c.DetArgs == nil {
+			return true
+		}
+		for _, n := range c.DetArgs {
+			if n == name || (isRecv && n == "self") {
+				return true
+			}
+		}
+		return false
+	}
 	var out []*Term
 	i := 0
 	if sig.Recv() != nil {
-		out = append(out, toComps(sig.Recv().Type(), all[0])...)
+		rn := "self"
+		if c != nil && c.RecvName != "" {
+			rn = c.RecvName
+		}
+		if want(rn, true) {
+			out = append(out, toComps(sig.Recv().Type(), all[0])...)
+		}
 		i = 1
 	}
 	for j := 0; j < sig.Params().Len(); j++ {
-		out = append(out, toComps(sig.Params().At(j).Type(), all[i+j])...)
+		name := sig.Params().At(j).Name()
+		if c != nil && j < len(c.Params) {
+			name = c.Params[j]
+		}
+		if want(name, false) {
+			out = append(out, toComps(sig.Params().At(j).Type(), all[i+j])...)
+		}
 	}
 	return out
 }
@@ -394,7 +421,7 @@ func (x *Exec) applyContract(fr *Frame, st *State, c *Contract, sig *types.Signa
 	if c.Determ {
 		// results (and the new world) are functions of the old world and the arguments
 		w0 := worldOf(pre)
-		argc := detArgs(sig, all)
+		argc := detArgsFor(c, sig, all)
 		for j := 0; j < sig.Results().Len(); j++ {
 			rt := sig.Results().At(j).Type()
 			dv := detResult(c.Key, j, rt, w0, argc)
@@ -524,7 +551,7 @@ func (x *Exec) doCall(fr *Frame, st *State, call *ssa.Call, cc *ssa.CallCommon, 
 			for _, t := range cands {
 				st2, fr2 := st.clone(), fr.clone()
 				st2.assume(Eq(recv.Tag, tagTerm(t)))
-				if st2.dead {
+				if st2.dead || !x.feasible(st2) {
 					continue
 				}
 				if !x.invokeConcrete(fr2, st2, cc, IfaceV{tagTerm(t), recv.Val}, args, site, k) {
@@ -534,7 +561,7 @@ func (x *Exec) doCall(fr *Frame, st *State, call *ssa.Call, cc *ssa.CallCommon, 
 			for _, t := range cands {
 				st.assume(Neq(recv.Tag, tagTerm(t)))
 			}
-			if st.dead {
+			if st.dead || !x.feasible(st) {
 				return
 			}
 		}
@@ -551,6 +578,14 @@ func (x *Exec) doCall(fr *Frame, st *State, call *ssa.Call, cc *ssa.CallCommon, 
 	}
 	switch f := fnv.(type) {
 	case *ssa.Builtin:
+		if f.Name() == "append" {
+			if sv, ok := args[0].(SliceV); ok {
+				if tv2, ok := args[1].(SliceV); ok && tv2.Len.IsInt() && tv2.Len.Int.Int64() <= 4 {
+					x.appendFork(fr, st, sv, tv2, k)
+					return
+				}
+			}
+		}
 		k(st, x.builtin(fr, st, f, cc, args, site))
 		return
 	case ClosureV:
@@ -592,6 +627,22 @@ func fnApply(sig *types.Signature, f *Term, args []Value) []Value {
 		rets[j], _ = fromComps(rt, ts)
 	}
 	return rets
+}
+
+// feasible: a quick solver check that the path condition is not plainly contradictory
+// (used to prune dynamic-dispatch branches; "unknown" counts as feasible).
+func (x *Exec) feasible(st *State) bool {
+	o := &Obligation{Fn: x.key, Kind: "feasible", PC: coverPC(st.pc), Goal: False, Cover: true}
+	script, _ := x.eng.buildScript(o, false)
+	f, err := os.CreateTemp("", "govc-feas-*.smt2")
+	if err != nil {
+		return true
+	}
+	defer os.Remove(f.Name())
+	f.WriteString(script)
+	f.Close()
+	status, _, _ := runSolver(context.Background(), solvers[0], f.Name(), 2)
+	return status != "unsat"
 }
 
 // invokeConcrete calls method cc.Method on the concrete dynamic type with the given (literal) tag.
@@ -791,6 +842,60 @@ func (x *Exec) copyElems(st *State, dst, src SliceV, n *Term) {
 		body := Ite(And(Le(dst.Off, i), Lt(i, Add(dst.Off, n))), Select(s0, Add(Sub(i, dst.Off), src.Off)), Select(d0, i))
 		st.setArr(name, Store(a, dst.Ref, Lambda([]*Term{i}, body)))
 	}
+}
+
+// appendFork: append(s, x...) with a short literal argument list, explored as two paths
+// (room in the backing array / reallocation) so that no conditional array terms arise.
+func (x *Exec) appendFork(fr *Frame, st *State, s, t SliceV, k cont) {
+	n := int(t.Len.Int.Int64())
+	newLen := Add(s.Len, t.Len)
+	fits := Le(newLen, s.Cap)
+	elems := make([][]*Term, n)
+	for i := 0; i < n; i++ {
+		elems[i] = toComps(s.Elem, readElem(st.heap, s.Elem, t.Ref, Add(t.Off, IntLit(int64(i)))))
+	}
+	// path 1: in place
+	st1, fr1 := st.clone(), fr.clone()
+	st1.assume(fits)
+	if !st1.dead {
+		for ci, c := range comps(s.Elem) {
+			name := elemArrName(s.Elem, c.suffix)
+			as := ArrayS(IntS, ArrayS(IntS, c.sort))
+			a := st1.arr(name, as)
+			inner := Select(a, s.Ref)
+			for i := 0; i < n; i++ {
+				inner = Store(inner, Add(Add(s.Off, s.Len), IntLit(int64(i))), elems[i][ci])
+			}
+			st1.setArr(name, Store(a, s.Ref, inner))
+		}
+		_ = fr1
+		k(st1, []Value{SliceV{Ref: s.Ref, Off: s.Off, Len: newLen, Cap: s.Cap, Elem: s.Elem}})
+	}
+	// path 2: reallocation
+	st.assume(Not(fits))
+	if st.dead {
+		return
+	}
+	fresh := st.alloc()
+	newCap := Const(freshName("appendcap"), IntS)
+	st.assume(And(Le(newLen, newCap), Le(newCap, BigLit(maxLen))))
+	for ci, c := range comps(s.Elem) {
+		name := elemArrName(s.Elem, c.suffix)
+		as := ArrayS(IntS, ArrayS(IntS, c.sort))
+		a := st.arr(name, as)
+		s0 := Select(a, s.Ref)
+		g := Const(freshName("grown"+c.suffix), ArrayS(IntS, c.sort))
+		j := Var(freshName("aj"), IntS)
+		q := Forall([]*Term{j}, Implies(And(Le(IntLit(0), j), Lt(j, s.Len)), Eq(Select(g, j), Select(s0, Add(s.Off, j)))))
+		q.Pat = []*Term{Select(g, j)}
+		st.assume(q)
+		var inner *Term = g
+		for i := 0; i < n; i++ {
+			inner = Store(inner, Add(s.Len, IntLit(int64(i))), elems[i][ci])
+		}
+		st.setArr(name, Store(a, fresh, inner))
+	}
+	k(st, []Value{SliceV{Ref: fresh, Off: IntLit(0), Len: newLen, Cap: newCap, Elem: s.Elem}})
 }
 
 // appendSlices implements append(s, t...) including in-place growth within capacity.
@@ -1031,6 +1136,43 @@ func (x *Exec) addFreshOnly(m map[string]*Sort) {
 func (x *Exec) growOnlySlice(fr *Frame, st *State, v ssa.Value, body map[*ssa.BasicBlock]bool) (*Term, bool) {
 	u, ok := v.(*ssa.UnOp)
 	if !ok {
+		return nil, false
+	}
+	if fv, isFree := u.X.(*ssa.FreeVar); isFree {
+		// a captured slice variable: every store to it inside the callback must be an append to itself
+		addr, ok := x.knownPtr(fr, fv)
+		if !ok || fv.Referrers() == nil {
+			return nil, false
+		}
+		for _, r := range *fv.Referrers() {
+			s, ok := r.(*ssa.Store)
+			if !ok || s.Addr != ssa.Value(fv) {
+				continue
+			}
+			call, ok := s.Val.(*ssa.Call)
+			if !ok {
+				return nil, false
+			}
+			bi, ok := call.Common().Value.(*ssa.Builtin)
+			if !ok || bi.Name() != "append" {
+				return nil, false
+			}
+			src, ok := call.Common().Args[0].(*ssa.UnOp)
+			if !ok || src.X != ssa.Value(fv) {
+				return nil, false
+			}
+		}
+		cur := readPtr(st.heap, fv.Type().(*types.Pointer).Elem(), addr)
+		sv, ok := cur.(SliceV)
+		if !ok {
+			return nil, false
+		}
+		if sv.Ref.IsInt() && sv.Ref.Int.Sign() == 0 {
+			return sv.Ref, true
+		}
+		if _, _, isAlloc := allocInfo(sv.Ref); isAlloc {
+			return sv.Ref, true
+		}
 		return nil, false
 	}
 	al, ok := u.X.(*ssa.Alloc)
